@@ -366,3 +366,29 @@ Proof.
   unfold lstep5. cbn [lstep5_gen]. rewrite Hte, En. cbn [handle_outgoing_packet5]. unfold outgoing_publish5. rewrite Ea, H.
   destruct l1; reflexivity.
 Qed.
+
+(** retransmit first over a SECOND failure while the replay is incomplete and the channel is not
+    empty (v5): pending is 1, 2, 3 (original ids) and only then 4, 5 *)
+Definition replay_cut5_history : list lop5 :=
+  [Reconnect5 true None None; Yield5; UserSend5 (pq1_5 1); UserSend5 (pq1_5 2); UserSend5 (pq1_5 3);
+   TakeRequest5; Yield5; TakeRequest5; Yield5; TakeRequest5; Yield5;
+   Fail5; Reconnect5 true None None; Yield5; TakeRequest5; Yield5; UserSend5 (pq1_5 4); UserSend5 (pq1_5 5); Fail5].
+
+Example second_failure_during_replay5 :
+  option_map (fun l => (pending5 l, chan5 l)) (lrun5 (linit5 10 false) replay_cut5_history)
+  = Some ([R5Publish (mkPub5 Q1 1 1 1 None); R5Publish (mkPub5 Q1 2 2 2 None); R5Publish (mkPub5 Q1 3 3 3 None); pq1_5 4; pq1_5 5], []) /\
+  option_map wire5 (lrun5 (linit5 10 false)
+    (replay_cut5_history ++ [Reconnect5 true None None; Yield5; TakeRequest5; Yield5; TakeRequest5; Yield5; TakeRequest5; Yield5;
+                             TakeRequest5; Yield5; TakeRequest5; Yield5]))
+  = Some [P5Publish (mkPub5 Q1 1 1 1 None); P5Publish (mkPub5 Q1 2 2 2 None); P5Publish (mkPub5 Q1 3 3 3 None);
+          P5Publish (mkPub5 Q1 4 4 4 None); P5Publish (mkPub5 Q1 5 5 5 None)].
+Proof. vm_compute. split; reflexivity. Qed.
+
+Theorem clean5_keeps_pending_before_channel l :
+  pending5 (loop_clean5 l) = held5 (st5 l) ++ pending5 l ++ filter not_puback5 (chan5 l) /\ chan5 (loop_clean5 l) = [].
+Proof. destruct (loop_clean5_pending l) as [H [_ [H2 _]]]. split; assumption. Qed.
+
+Lemma second_failure_during_replay5_pending :
+  option_map (fun l => (pending5 l, chan5 l)) (lrun5 (linit5 10 false) replay_cut5_history)
+  = Some ([R5Publish (mkPub5 Q1 1 1 1 None); R5Publish (mkPub5 Q1 2 2 2 None); R5Publish (mkPub5 Q1 3 3 3 None); pq1_5 4; pq1_5 5], []).
+Proof. exact (proj1 second_failure_during_replay5). Qed.
